@@ -199,7 +199,7 @@ def updatePersist (s : Sess) : Sess := { s with store := s.store.map fun st => s
 /-- catch branch of `process` for an f8Exception without force_logoff -/
 def softReject (s : Sess) (sq : Nat) (pre : List Out) : Sess × List Out :=
   let r := sendProcess s { m := mkReject s sq }
-  ({ r.1 with nr := r.1.nr + 1 }, pre ++ r.2)
+  (updatePersist { r.1 with nr := r.1.nr + 1 }, pre ++ r.2)
 
 /-- catch branch of `process` for an f8Exception with force_logoff (not `_reliable`, not `_silent_disconnect`) -/
 def logoff (s : Sess) (pre : List Out) : Sess × List Out :=
